@@ -6,7 +6,7 @@ Real code (entered through what a user calls):
   ml_metrics.metrics.text.topk_word_ngrams / pattern_frequency / avg_alphabetical_char_count (one-shot functions)
   all of which sit on ml_metrics._src.aggregates.utils.FrequencyState.
 Model: lean/MlModel/Model/Agg/Text.lean + TextHeap.lean through lean/Driver/AggText.lean ("aggtext").
-Theorems: lean/MlModel/Properties/{C01,C11,C07}/Text.lean (+ Witness/C11Text.lean).
+Theorems: lean/MlModel/Properties/{C01,C11,C07}/Text.lean (+ Witness/C11Text.lean, Witness/C07Text.lean, Witness/C01Text.lean).
 
 `ml_metrics._src.metrics.text` imports `ml_metrics._src.signals.text`, which imports
 `ml_metrics.google.tools.telemetry` - a package that does not exist in the open-source tree (this is why
@@ -31,9 +31,9 @@ from fractions import Fraction as Fr
 
 from harness.core import deep_close, err_kind
 
-LEAN_C01 = ['MlModel.Properties.C01.Text']
+LEAN_C01 = ['MlModel.Properties.C01.Text', 'MlModel.Witness.C01Text']
 LEAN_C11 = ['MlModel.Properties.C11.Text', 'MlModel.Witness.C11Text']
-LEAN_C07 = ['MlModel.Properties.C07.Text']
+LEAN_C07 = ['MlModel.Properties.C07.Text', 'MlModel.Witness.C07Text']
 
 TRUSTED = [
     'text family: `ml_metrics.google.tools.telemetry` (absent from the open-source tree) is replaced by a no-op decorator '
@@ -221,7 +221,31 @@ def prog_laws(case):
   return prog
 
 
+def prog_c07_paths(case):
+  """SC07c: every accumulation path over the same batches, each of which must report the definition over ALL texts:
+  one accumulator fed batch by batch | one accumulator per batch, merged pairwise into the first | another set of
+  per-batch accumulators handed to ONE merge_states call in case['order'] | __call__ / function on the concatenation."""
+  batches = case['batches']
+  B = len(batches)
+  prog = [['make']] + [['add', 0, b] for b in batches] + [['result', 0]]
+  for base in (1, 1 + B):
+    for i, b in enumerate(batches):
+      prog += [['make'], ['add', base + i, b]]
+    if base == 1:
+      prog += [['merge', 1, 1 + i] for i in range(1, B)]
+      prog.append(['result', 1])
+    else:
+      order = case.get('order') or list(range(B))
+      prog.append(['merge_states', [base + i for i in order]])
+      prog.append(['result', base + order[0]])
+  whole = flat(batches)
+  prog += [['call', whole], ['fn', whole]]
+  return prog
+
+
 def prog_c07(case):
+  if case.get('paths'):
+    return prog_c07_paths(case)
   prog = [['make']]
   for b in case['batches']:
     prog.append(['add', 0, b])
@@ -443,6 +467,233 @@ SMALL_TEXTS = ['a b a b', 'A b', 'b', 'a a a', '', 'b a!', 'a\tb c']
 SMALL_PAT_TEXTS = ['aaa', 'ab', '', 'a.a', 'ba']
 
 
+# ----------------------------------------------------------------------------- wide-vocabulary streams (SC07c)
+#
+# STATE-SIZE-DEPENDENT behaviour: an accumulator whose state is bounded ("keep the 10*k most frequent candidates",
+# "keep k rows", a cache of N entries) is exact on one batch and on small vocabularies and wrong only when the
+# accumulated state grows past the bound ACROSS batches while an item that is below the cut then matters later.
+# The size constants are read off the source at run time (every int literal of aggregates/text.py and utils.py, found
+# with `ast`), united with the constants of the storage TODO b/331796958 (`BASE_SIZE_CONSTS`: 1*k and 10*k), and every
+# stream is built around cut = c*k for one of them: vocabulary at cut-1, cut, cut+1, cut+2, cut+5 and 2-3x the cut.
+
+BASE_SIZE_CONSTS = (1, 10)
+_SIZE_CONSTS = []
+
+
+def size_constants():
+  """int literals 2..400 of the text aggregates' source (ast, at run time) + BASE_SIZE_CONSTS, ascending."""
+  if _SIZE_CONSTS:
+    return _SIZE_CONSTS[0]
+  import ast
+  found = set()
+  try:
+    agg_text, _ = _mods()
+    from ml_metrics._src.aggregates import utils as agg_utils
+    for mod in (agg_text, agg_utils):
+      tree = ast.parse(open(mod.__file__, encoding='utf-8').read())
+      for node in ast.walk(tree):
+        if isinstance(node, ast.Constant) and type(node.value) is int and 2 <= node.value <= 400:
+          found.add(node.value)
+  except (OSError, SyntaxError):
+    pass
+  found = sorted(found - set(BASE_SIZE_CONSTS))
+  if len(found) > 10:                    # never let a source full of literals crowd out the random arms
+    found = found[::-(-len(found) // 10)]
+  consts = sorted(set(found) | set(BASE_SIZE_CONSTS))
+  _SIZE_CONSTS.append(consts)
+  return consts
+
+
+_CONS = 'bcdfghjklm'
+
+
+N_WWORDS = 10000
+
+
+def wword(i):
+  """distinct all-letter words (N_WWORDS of them), disjoint from VOCAB"""
+  assert 0 <= i < N_WWORDS
+  return 'w' + _CONS[i // 1000 % 10] + _CONS[i // 100 % 10] + _CONS[i // 10 % 10] + _CONS[i % 10]
+
+
+def witem(j, n):
+  """a text fragment of exactly n words that yields exactly one n-gram, distinct for distinct j"""
+  return ' '.join(wword(j) + 'xyzuv'[p % 5] * (1 + p // 5) for p in range(n))
+
+
+def _decorate(rng, t):
+  r = rng.random()
+  if r < 0.08:
+    return t.upper()
+  if r < 0.16:
+    return t.capitalize() + rng.choice(['!', ' 2', '...', '\t9'])
+  if r < 0.20:
+    return '1' + t.replace(' ', '  ')
+  return t
+
+
+def wide_cfg(rng, k=None, n=None):
+  return dict(k=k or rng.choice([1, 1, 2, 3]), n=n or rng.choice([1, 1, 2, 3]),
+              first=rng.random() < 0.25, dup=rng.random() < 0.6)
+
+
+def gen_bloomer_batches(rng, cfg, c, forward=None, extra=None):
+  """cut = c*k.  Batch 0: `ncommon` (around the cut) items `hi` times each + 1..k "late bloomers" `lo` < `hi` times
+  each (below every common item, i.e. below the cut); every later batch: the bloomers `lo` times again + fresh filler
+  items; enough batches that lo*B > hi, so the bloomers are the global top.  Batch order forward (rare early, frequent
+  late), reversed (the reverse) or shuffled."""
+  k, n = cfg['k'], cfg['n']
+  cut = c * k
+  ncommon = max(1, cut + (rng.choice([-1, 0, 1, 2, 5]) if extra is None else extra))
+  hi = rng.choice([2, 3, 4])
+  lo = rng.randrange(1, hi)
+  B = hi // lo + 1 + rng.choice([0, 0, 1])
+  nb = rng.randrange(1, k + 1)
+  ids = list(range(N_WWORDS))
+  rng.shuffle(ids)                       # alphabetical rank of bloomers / commons / fillers is random
+  bloom, common, fill = ids[:nb], ids[nb:nb + ncommon], ids[nb + ncommon:]
+  batches = []
+  for b in range(B):
+    items = [j for j in bloom for _ in range(lo)]
+    if b == 0:
+      items += [j for j in common for _ in range(hi)]
+    else:
+      nf = min(rng.choice([0, max(1, cut // 2), cut + 1]), len(fill))
+      rep = rng.choice([1, 1, hi])
+      items += [fill.pop() for _ in range(nf)] * rep
+    rng.shuffle(items)
+    texts = []
+    while items:
+      take = 1 if rng.random() < 0.8 else rng.randrange(2, 4)
+      texts.append(_decorate(rng, ' '.join(witem(j, n) for j in items[:take])))
+      del items[:take]
+    if rng.random() < 0.2:
+      texts.insert(rng.randrange(len(texts) + 1), rng.choice(['', ' ', '42']))
+    batches.append(texts)
+  if forward is None:
+    forward = rng.choice(['fwd', 'fwd', 'rev', 'shuffle'])
+  if forward == 'rev':
+    batches.reverse()
+  elif forward == 'shuffle':
+    rng.shuffle(batches)
+  return batches
+
+
+def gen_zipf_batches(rng, cfg, c):
+  """vocabulary of 2-3x the cut, Zipf-like word weights that drift from batch to batch (the head of one batch is the
+  tail of another), 2-4 batches of short texts."""
+  cut = c * cfg['k']
+  V = min(900, cut * rng.choice([2, 3]) + rng.randrange(2, 7))
+  ws = [wword(i) for i in rng.sample(range(N_WWORDS), V)]
+  shift = rng.randrange(1, V)
+  batches = []
+  per = max(12, min(60, V))
+  for b in range(rng.choice([2, 3, 4])):
+    weights = [1.0 / (1 + (i + shift * b) % V) for i in range(V)]
+    batch = []
+    for _ in range(rng.randint(per // 2, per)):
+      batch.append(_decorate(rng, ' '.join(rng.choices(ws, weights, k=rng.randint(0, 5)))))
+    batches.append(batch)
+  return batches
+
+
+def gen_wide_batch(rng, cfg, c):
+  """one batch generated WITHOUT knowing its position in a stream (harness/agg/histories.py feeds every add() of a
+  history from the same generator): cut + 1 or more "hot" items, three times each, from one of five disjoint windows
+  of the vocabulary, and k "steady" items twice - below the cut in every batch, the global top after two batches
+  with different windows."""
+  k, n = cfg['k'], cfg['n']
+  cut = c * k
+  width = cut + rng.choice([1, 1, 2, 4])
+  w0 = rng.randrange(5) * (cut + 4)
+  items = [w0 + i for i in range(width) for _ in range(3)] + [N_WWORDS - 1 - j for j in range(k) for _ in range(2)]
+  rng.shuffle(items)
+  return [_decorate(rng, witem(j, n)) for j in items]
+
+
+def gen_wide_streams(rng, count):
+  """(arm, cfg, c, batches): deterministic head (every size constant x forward late bloomer just past the cut, k = 1
+  and 2), then random arms."""
+  consts = size_constants()
+  out = 0
+  for c in consts:
+    for k in (1, 2):
+      if c * k > 450:
+        continue
+      cfg = dict(k=k, n=1 + (c + k) % 2, first=False, dup=True)
+      yield 'bloomer', cfg, c, gen_bloomer_batches(rng, cfg, c, forward='fwd', extra=1 + k)
+      out += 1
+  while out < count:
+    cfg = wide_cfg(rng)
+    c = rng.choice([x for x in consts if x * cfg['k'] <= 450] or [1])
+    if rng.random() < 0.65:
+      yield 'bloomer', cfg, c, gen_bloomer_batches(rng, cfg, c)
+    else:
+      yield 'zipf', cfg, c, gen_zipf_batches(rng, cfg, c)
+    out += 1
+
+
+def split_shards(rng, batches):
+  """the batches of a stream dealt to 1-3 shards (order within a shard preserved), sometimes with an empty shard"""
+  ns = rng.choice([1, 2, 2, 3])
+  shards = [[] for _ in range(ns)]
+  for b in batches:
+    shards[rng.randrange(ns)].append(b)
+  return shards
+
+
+def gen_wide_c01(rng, count):
+  for arm, cfg, c, batches in gen_wide_streams(rng, count):
+    case = mk_c01(rng, 'ngrams', cfg, split_shards(rng, batches))
+    case['wide'] = dict(arm=arm, c=c)
+    yield case
+
+
+def gen_wide_c07(rng, count):
+  for arm, cfg, c, batches in gen_wide_streams(rng, count):
+    order = list(range(len(batches)))
+    rng.shuffle(order)
+    yield dict(kind='c07', metric='ngrams', cfg=cfg, api=rng.choice(['object', 'aggfn']), batches=batches,
+               paths=True, order=order, wide=dict(arm=arm, c=c))
+
+
+def wide_labels(case):
+  """oracle-side only (textbook counts of prefixes of the stream; BASE constant 10, independent of the code under
+  test): does some accumulator hold more than 10*k distinct n-grams while more data is still to come, and is there
+  then an n-gram of the final top k that ranks below the 10*k-th (late bloomer), or a leader that ends outside of
+  the final top k (early leader)."""
+  out = set()
+  cfg = case['cfg']
+  k = cfg['k']
+  if case['kind'] == 'c01':
+    streams = case['shards']
+    whole = [t for s in streams for t in flat(s)]
+    points = [flat(s[:i]) for s in streams for i in range(1, len(s) + 1) if not (len(streams) == 1 and i == len(s))]
+    points = [p for p in points if len(p) < len(whole)]
+  else:
+    bs = case['batches']
+    whole = flat(bs)
+    points = [flat(bs[:i]) for i in range(1, len(bs))] + ([b for b in bs] if len(bs) > 1 else [])
+  def ranked(texts):
+    cnt = spec_ngram_counts(cfg, texts)
+    return sorted(cnt, key=lambda g: (-cnt[g], _str_key(g)))
+  top = ranked(whole)[:k]
+  out.add('wide:arm-' + case['wide']['arm'])
+  for p in points:
+    r = ranked(p)
+    if len(r) > 10 * k:
+      out.add('wide:state>10k')
+      if any(g in r[10 * k:] for g in top):
+        out.add('wide:late-bloomer')
+    if any(g not in top for g in r[:k]):
+      out.add('wide:early-leader')
+    if len(r) > k and any(g in r[k:] for g in top):
+      out.add('wide:state>k')
+  if case['wide']['c'] not in BASE_SIZE_CONSTS:
+    out.add('wide:source-constant')
+  return out
+
+
 def gen_c01(ctx):
   rng = ctx.rng
   # small-exhaustive: every composition of a small dataset into batches and of the batches into shards
@@ -470,6 +721,8 @@ def gen_c01(ctx):
     for shards in ([[]], [[], []], [[[]]], [[[]], []], [[[], []], [[]]]):
       yield mk_c01(rng, metric, cfg, copy.deepcopy(shards), api='object')
       yield mk_c01(rng, metric, cfg, copy.deepcopy(shards), api='aggfn')
+  # wide-vocabulary multi-batch streams around every state-size constant (SC07c)
+  yield from gen_wide_c01(rng, 120 if ctx.quick else 4000)
   # random
   for _ in range(500 if ctx.quick else 50000):
     metric = rng.choice(['ngrams', 'ngrams', 'patterns'])
@@ -563,6 +816,8 @@ def gen_c07(ctx):
     for dup in (True, False):
       yield dict(kind='c07', metric='patterns', cfg=dict(patterns=['a', 'aa', 'ab', ''][: 1 + i % 4], dup=dup),
                  api='object', batches=[[t, ptexts[(i * 7) % len(ptexts)]]])
+  # wide-vocabulary multi-batch streams through every accumulation path (SC07c)
+  yield from gen_wide_c07(rng, 120 if ctx.quick else 4000)
   for _ in range(500 if ctx.quick else 50000):
     metric = rng.choice(['ngrams', 'ngrams', 'patterns'])
     yield dict(kind='c07', metric=metric, cfg=gen_cfg(rng, metric), api=rng.choice(['object', 'aggfn']),
@@ -652,6 +907,10 @@ def labels(case):
         out.add('tie-at-k-boundary')
     if len(set(counts.values())) < len(counts):
       out.add('tie')
+    if case.get('wide') and case['kind'] in ('c01', 'c07'):
+      out |= wide_labels(case)
+    if case.get('paths'):
+      out.add('paths:add/merge/merge_states/call/fn')
   else:
     out.add('dup' if cfg['dup'] else 'nodup')
     if '' in cfg['patterns']:
@@ -673,14 +932,16 @@ def labels(case):
 REQUIRED = {
     'C01': ['metric:ngrams', 'metric:patterns', 'api:object', 'api:aggfn', 'empty-batch', 'empty-shard', 'shards>=2',
             'plan:merge_states', 'plan:tree', 'first', 'dup', 'nodup', 'text-shorter-than-n', 'repeated-ngram-in-text',
-            'k>distinct', 'k<distinct', 'tie-at-k-boundary', 'empty-text', 'pattern-absent', 'pattern-repeated'],
+            'k>distinct', 'k<distinct', 'tie-at-k-boundary', 'empty-text', 'pattern-absent', 'pattern-repeated',
+            'wide:arm-bloomer', 'wide:arm-zipf', 'wide:state>10k', 'wide:late-bloomer', 'wide:early-leader', 'wide:state>k'],
     'C11': ['metric:ngrams', 'metric:patterns', 'api:object', 'api:aggfn', 'empty-batch', 'k<distinct',
             'malformed:non-str-text'],
     'C07': ['metric:ngrams', 'metric:patterns', 'metric:avgalpha', 'api:object', 'api:aggfn', 'first', 'dup', 'nodup',
             'text-shorter-than-n', 'repeated-ngram-in-text', 'k>distinct', 'k<distinct', 'tie', 'tie-at-k-boundary',
             'empty-text', 'non-space-whitespace', 'non-ascii', 'upper-case', 'empty-pattern', 'pattern-absent',
             'pattern-repeated', 'overlapping-occurrences', 'regex-metachar-pattern', 'malformed:bad-k-n',
-            'malformed:bad-patterns', 'malformed:non-str-text', 'avgalpha:empty'],
+            'malformed:bad-patterns', 'malformed:non-str-text', 'avgalpha:empty',
+            'wide:arm-bloomer', 'wide:arm-zipf', 'wide:state>10k', 'wide:late-bloomer', 'wide:early-leader', 'wide:state>k', 'paths:add/merge/merge_states/call/fn'],
 }
 
 
@@ -820,8 +1081,13 @@ def oracle_c07(case, obs):
       return same(got, want)
     return same(sorted(got, key=lambda r: _str_key(r[0])), sorted(want, key=lambda r: _str_key(r[0])))
 
-  if not agrees(res, want):
-    return f'accumulator result {res} != definition {want}'
+  for at, (op, x) in enumerate(zip(prog, o)):
+    if op[0] == 'result' and not agrees(x, want):
+      how = 'accumulator'
+      if case.get('paths'):
+        how = ('accumulator fed batch by batch', 'per-batch accumulators merged pairwise',
+               'per-batch accumulators after one merge_states call')[[i for i, q in enumerate(prog) if q[0] == 'result'].index(at)]
+      return f'{how}: result {x} != definition over all texts {want}'
   if not agrees(call, want):
     return f'AggregateFn.__call__ {call} != definition {want}'
   if not agrees(fn, want):
@@ -881,8 +1147,27 @@ def shrink(case, fails):
       return [c['texts']]
     return [op[2] for op in c['prog'] if op[0] == 'add'] + [op[1] for op in c['prog'] if op[0] in ('call', 'fn')]
 
+  import time
+  deadline = time.time() + 60          # wide streams hold hundreds of texts: bounded effort, the case stays a failing one
+
+  # (SC07c) first whole blocks of texts (halves, quarters, ...), then single texts / characters
+  size = max((len(b) for b in lists_of(cur)), default=0) // 2
+  while size >= 2 and time.time() < deadline:
+    progress = False
+    for bi in range(len(lists_of(cur))):
+      start = 0
+      while start < len(lists_of(cur)[bi]) and time.time() < deadline:
+        c = copy.deepcopy(cur)
+        del lists_of(c)[bi][start:start + size]
+        if fails(c):
+          cur, progress = c, True
+        else:
+          start += size
+    if not progress:
+      size //= 2
+
   changed = True
-  while changed:
+  while changed and time.time() < deadline:
     changed = False
     for bi in range(len(lists_of(cur))):
       b = lists_of(cur)[bi]
@@ -892,7 +1177,7 @@ def shrink(case, fails):
         if fails(c):
           cur, changed = c, True
           break
-        if isinstance(b[ti], str) and b[ti]:
+        if isinstance(b[ti], str) and b[ti] and len(b) <= 40:
           for cut in (b[ti][:-1], b[ti][1:]):
             c = copy.deepcopy(cur)
             lists_of(c)[bi][ti] = cut
@@ -914,6 +1199,7 @@ def _nb_metric(case, rng):
 
 def neighbours_c01(case, rng):
   """failing-input search for C01: other compositions / merge trees of similar data, same or a fresh configuration"""
+  yield from gen_wide_c01(rng, 40)
   for _ in range(400):
     metric, cfg = _nb_metric(case, rng)
     yield mk_c01(rng, metric, cfg, [gen_batches(rng, metric) for _ in range(rng.randrange(1, 5))])
@@ -932,6 +1218,7 @@ def neighbours_c11(case, rng):
 
 
 def neighbours_c07(case, rng):
+  yield from gen_wide_c07(rng, 40)
   for _ in range(400):
     metric, cfg = _nb_metric(case, rng)
     yield dict(kind='c07', metric=metric, cfg=cfg, api=rng.choice(['object', 'aggfn']), batches=gen_batches(rng, metric))
@@ -951,7 +1238,11 @@ class C01:
           '(with empty batches/shards sprinkled in), all-empty corners, then random (metric, k, n, flags / pattern sets, '
           '1-4 shards x 0-3 batches x 0-4 texts, random binary merge tree or one merge_states call in shuffled order, '
           'object API or AggregateFn API) and ~8% malformed; oracle = result of the merged shards vs one accumulator fed '
-          'everything in one batch on the real code; non-trivial = at least 2 batches and a non-empty result')
+          'everything in one batch on the real code; non-trivial = at least 2 batches and a non-empty result.  (SC07c) plus '
+          'wide-vocabulary multi-batch n-gram streams: state-size constants c = int literals of aggregates/text.py + utils.py '
+          '(ast, at run time) united with 1 and 10, vocabulary straddling c*k (cut-1 .. cut+5, 2-3x), "late bloomer" arm (k '
+          'n-grams below the cut in the first batch that are the global top; forward / reversed / shuffled batch order) and '
+          'drifting-Zipf arm, dealt to 1-3 shards; coverage labels from textbook prefix counts only')
   run_impl = staticmethod(run_impl)
   model_requests = staticmethod(model_requests)
   model_obs = staticmethod(model_obs)
@@ -1009,7 +1300,11 @@ class C07:
           'newlines, NBSP, non-ASCII letters, empty / blank texts) and random pattern sets incl. regex metacharacters, '
           'avg_alphabetical_char_count, and ~8% malformed; oracle = brute-force definitions (character scan, position '
           'counting, exact Fractions, code-point order) for result(), add() return values, AggregateFn.__call__ and the '
-          'one-shot functions; non-trivial = at least 2 texts and a non-empty result')
+          'one-shot functions; non-trivial = at least 2 texts and a non-empty result.  (SC07c) plus wide-vocabulary multi-batch '
+          'n-gram streams (constants c read off the source by ast, united with 1 and 10; vocabulary straddling c*k; late-bloomer '
+          'and drifting-Zipf arms) through EVERY accumulation path - one accumulator fed batch by batch | per-batch accumulators '
+          'merged pairwise | one merge_states call in shuffled order | __call__ and the function on the concatenation - each '
+          'compared with the definition over all raw texts')
   run_impl = staticmethod(run_impl)
   model_requests = staticmethod(model_requests)
   model_obs = staticmethod(model_obs)
